@@ -130,7 +130,21 @@ def cls_efforts(rnd):
         t = ('project p "P" 2025-03-03 +1w {\n  timezone "Etc/UTC"\n}\nresource r "r" {}\n'
              'task big "big" {\n  effort %s\n  allocate r\n}\ntask after "after" {\n  effort 3h\n  allocate r\n  depends big\n}\n' % g)
         return dict(res=60, giant=True), t
-    big = rnd.choice(["0min", "0h", "1min", "0.5h", "900h", "5000h", "700d", "40w", "123456min"])
+    big = rnd.choice(["0min", "0h", "1min", "0.5h", "900h", "5000h", "700d", "40w", "123456min", "99999999999h", "9999999999d"])
+    k = rnd.random()
+    if k < 0.25:
+        # 'flags contiguous' (the task must not be split across breaks), with and without an allocation, also in a
+        # project that starts inside working hours
+        text = re.sub(r"(task \w+ \"[^\"]*\" \{\n)", r"\1  flags contiguous\n", text, count=rnd.randint(1, 3))
+        if rnd.random() < 0.5:
+            text = re.sub(r"(project \w+ \"P\" \d{4}-\d{2}-\d{2})", r"\1-10:00", text, count=1)
+        if rnd.random() < 0.5:
+            text = re.sub(r"\n\s*allocate [^\n]+", "", text, count=1)
+        return m, text
+    if k < 0.35:
+        # a blocking booking of absurd length
+        text = re.sub(r"(resource r0 \"r0\" \{\n)", r'\1  booking "B" %s +%s\n' % (m["start"].strftime("%Y-%m-%d"), rnd.choice(["9999999999d", "99999999h", "0min", "1d"])), text, count=1)
+        return m, text
     # replace one effort with a boundary value
     efforts = list(re.finditer(r"effort \d+min", text))
     if efforts:
@@ -356,6 +370,23 @@ def innermost(e):
     return tb[-1].name if tb else "?"
 
 
+LIVE = [None]
+
+
+def _watch_schedule():
+    """remember the project object that entered Project.schedule (to size an aborted run)"""
+    from scriptplan.core.project import Project
+    if getattr(Project.schedule, "_c11_watch", False):
+        return
+    orig = Project.schedule
+
+    def schedule(self, *a, **k):
+        LIVE[0] = self
+        return orig(self, *a, **k)
+    schedule._c11_watch = True
+    Project.schedule = schedule
+
+
 def run_one(name, m, text, acc, cs, job):
     import lark
     monitors.reset()
@@ -370,6 +401,8 @@ def run_one(name, m, text, acc, cs, job):
     outcome = None
     p = None
     exc = None
+    LIVE[0] = None
+    _watch_schedule()
     steps_on(bound)
     try:
         with contextlib.redirect_stderr(err), contextlib.redirect_stdout(io.StringIO()), warnings.catch_warnings():
@@ -397,6 +430,20 @@ def run_one(name, m, text, acc, cs, job):
     acc.count("steps", steps)
     acc.count("outcome:" + outcome)
     rp = dict(property="C11", seed=cs, cls=name, text=text, model=None)
+    if outcome == "step-bound" and LIVE[0] is not None:
+        # the absolute cap is only the harness's way to stop a run on logical steps; the property's bound is relative to
+        # project size.  A derivation such as 'effort 1000 y' makes the repo extend the horizon to centuries: judge
+        # the aborted run by the same size unit as a finished one, measured on the live project object.
+        try:
+            lp = LIVE[0]
+            lsize = lp.scoreboardSize()
+            lunit = max(1, lsize) * (sum(1 for _ in lp.resources) + sum(1 for t in lp.tasks if t.leaf()) + 1) * max(1, lp.scenarioCount())
+        except Exception:
+            lunit = 0
+        if lunit and (steps - 3000 * len(text)) / lunit <= job["params"].get("step_ratio", 60.0):
+            acc.count("outcome:aborted-giant-within-size-bound")
+            acc.counters["max-slots-of-aborted-giant"] = max(acc.counters.get("max-slots-of-aborted-giant", 0), lsize)
+            return "aborted-giant", None
     if outcome == "step-bound":
         acc.violation("C11", "step-bound-exceeded", dict(cls=name, bound=bound, lines=nlines), [], dict(rp, clause="step-bound-exceeded"))
         return outcome, None
